@@ -27,6 +27,7 @@ import (
 	"strings"
 	"sync"
 
+	"github.com/oxia-db/oxia/proto"
 	"github.com/oxia-db/oxia/server/kv"
 
 	m "verif/harness/dbmodel"
@@ -47,23 +48,55 @@ var scope = map[string]bool{"res": true, "recs": true, "lv": true, "idx": true, 
 
 func argsOf(want *m.Step) m.Step { return m.Step{A: want.A, Ts: want.Ts, Req: want.Req} }
 
+// prepared is what every route choice of one sequence shares: the leader's dump and log, and the verdict of
+// the route that does not depend on the choice (replay of the whole WAL by a new leader).
+type prepared struct {
+	live    []m.DumpEntry
+	entries []*proto.LogEntry
+	what    string
+	enc     int
+}
+
+func prepare(e *m.LeaderEngine) (*prepared, error) {
+	p := &prepared{}
+	var err error
+	if p.live, err = e.LiveDump(); err != nil {
+		return nil, fmt.Errorf("dump of the leader: %v", err)
+	}
+	if p.entries, err = e.LogEntries(); err != nil {
+		return nil, fmt.Errorf("reading the leader's log: %v", err)
+	}
+	if len(p.entries) != e.NextOffset() {
+		p.what = fmt.Sprintf("the leader's WAL holds %d entries, %d requests were logged", len(p.entries), e.NextOffset())
+		return p, nil
+	}
+	if len(p.entries) == 0 {
+		return p, nil
+	}
+	// wal: replay of the whole log by a new leader
+	rd, err := e.ReplayedFromWal()
+	if err != nil {
+		p.what = "route wal (new leader on the same WAL, empty DB): " + err.Error()
+		return p, nil
+	}
+	p.what, p.enc = m.DiffDumps(p.live, rd, "leader (live)", "leader replaying the WAL")
+	return p, nil
+}
+
 // compareRoutes applies the leader's log by the other routes and compares the dumps.
-func compareRoutes(e *m.LeaderEngine, cut, lag int) (what string, encDiffs int, harness error) {
-	live, err := e.LiveDump()
-	if err != nil {
-		return "", 0, fmt.Errorf("dump of the leader: %v", err)
+func compareRoutes(e *m.LeaderEngine, pre *prepared, cut, lag int) (what string, encDiffs int, harness error) {
+	if pre == nil {
+		var err error
+		if pre, err = prepare(e); err != nil {
+			return "", 0, err
+		}
 	}
-	entries, err := e.LogEntries()
-	if err != nil {
-		return "", 0, fmt.Errorf("reading the leader's log: %v", err)
+	if pre.what != "" || len(pre.entries) == 0 {
+		return pre.what, pre.enc, nil
 	}
+	live, entries := pre.live, pre.entries
+	encDiffs = pre.enc
 	n := len(entries)
-	if n != e.NextOffset() {
-		return fmt.Sprintf("the leader's WAL holds %d entries, %d requests were logged", n, e.NextOffset()), 0, nil
-	}
-	if n == 0 {
-		return "", 0, nil
-	}
 	if cut >= n {
 		cut = n - 1
 	}
@@ -72,14 +105,6 @@ func compareRoutes(e *m.LeaderEngine, cut, lag int) (what string, encDiffs int, 
 		w, enc := m.DiffDumps(live, d, "leader (live)", name)
 		encDiffs += enc
 		return w
-	}
-	// wal: replay of the whole log by a new leader
-	rd, err := e.ReplayedFromWal()
-	if err != nil {
-		return "route wal (new leader on the same WAL, empty DB): " + err.Error(), encDiffs, nil
-	}
-	if w := check("leader replaying the WAL", rd); w != "" {
-		return w, encDiffs, nil
 	}
 	// follower
 	f1, err := m.NewFollower("default", term)
@@ -175,11 +200,18 @@ func replayOne(beh []m.Step, rec func(*m.Step)) (o outcome) {
 	}
 	defer e.Close()
 	probeKeys := m.KeysOf(beh)
+	var pre *prepared
 	for i := range beh {
 		want := &beh[i]
 		if want.A == "Routes" {
 			// (a group: the same sequence with every route choice TLC made for it)
-			what, enc, herr := compareRoutes(e, want.Off, want.Ts)
+			if pre == nil {
+				if pre, err = prepare(e); err != nil {
+					o.harness = err
+					return o
+				}
+			}
+			what, enc, herr := compareRoutes(e, pre, want.Off, want.Ts)
 			o.routes++
 			o.enc += enc
 			if herr != nil {
@@ -492,7 +524,7 @@ func cmdDrive(args []string) int {
 		res.Steps += len(beh)
 		if ok && e.NextOffset() > 0 {
 			cut, lag := rng.Intn(e.NextOffset()), []int{0, 1, 3}[rng.Intn(3)]
-			what, encd, herr := compareRoutes(e, cut, lag)
+			what, encd, herr := compareRoutes(e, nil, cut, lag)
 			if herr != nil {
 				fmt.Fprintln(os.Stderr, "harness failure:", herr)
 				return 2
@@ -534,7 +566,7 @@ func replayArgs(beh []m.Step) string {
 	defer e.Close()
 	for i := range beh {
 		if beh[i].A == "Routes" {
-			what, _, _ := compareRoutes(e, beh[i].Off, beh[i].Ts)
+			what, _, _ := compareRoutes(e, nil, beh[i].Off, beh[i].Ts)
 			return what
 		}
 		st := argsOf(&beh[i])
@@ -584,7 +616,7 @@ func cmdRerun(args []string) int {
 	for i := range mm.Behaviour {
 		want := &mm.Behaviour[i]
 		if want.A == "Routes" {
-			what, encd, herr := compareRoutes(e, want.Off, want.Ts)
+			what, encd, herr := compareRoutes(e, nil, want.Off, want.Ts)
 			if herr != nil {
 				fmt.Fprintln(os.Stderr, "harness failure:", herr)
 				return 2
